@@ -132,8 +132,9 @@ def _wrap_scan():
             # attribute by category
             attribute_scan_findings(se, {"edge-missing": "C02", "edge-extra": "C02", "nodes": "C04", "external": "C10", "hierarchy": "C10" if not a["exclude_external_libraries"] else "C04"})
         HUB.scan_events.append(se)
-        if len(HUB.scan_events) > 64:
-            del HUB.scan_events[:-64]
+        if len(HUB.scan_events) > 3:
+            # (a workload keeps the events it still needs; the hub must not keep scanned architectures alive)
+            del HUB.scan_events[:-3]
         return ev
 
     get_evaluable_architecture._pta_orig = orig
